@@ -155,3 +155,20 @@ func (l *Log) childCanceled(from, pos int) []int {
 	}
 	return out
 }
+
+// acquiredSince reports whether the calling task logged a successful standalone acquisition after seq.
+//
+//go:norace
+func (l *Log) acquiredSince(seq int) bool {
+	if l == nil {
+		return false
+	}
+	me := simrt.Current()
+	for k := seq + 1; k < len(l.Ev); k++ {
+		e := &l.Ev[k]
+		if e.Kind == EvStandalone && e.Task == me && e.L == 1 && e.A == 1 {
+			return true
+		}
+	}
+	return false
+}
